@@ -186,26 +186,12 @@ func extractBlockMgr() {
 	}
 	l.def("reorgOrder", "List String", lstrs(order), "store/list operations of the reorg arm in source order")
 
-	// equal work returns without reorganising
-	eq := false
-	ast.Inspect(reorg, func(x ast.Node) bool {
-		sw, ok := x.(*ast.SwitchStmt)
-		if !ok || sw.Tag == nil || src(sw.Tag) != "knownWork.Cmp(totalWork)" {
-			return true
-		}
-		for _, cl := range sw.Body.List {
-			cc := cl.(*ast.CaseClause)
-			if len(cc.List) == 1 && src(cc.List[0]) == "0" {
-				for _, st := range cc.Body {
-					if _, ok := st.(*ast.ReturnStmt); ok {
-						eq = true
-					}
-				}
-			}
-		}
-		return false
-	})
-	l.def("equalWorkReturns", "Bool", lbool(eq), "`case 0:` of knownWork.Cmp(totalWork) returns (equal work is not adopted)")
+	// equal work returns without reorganising: evaluate the statements between the work comparison
+	// and the rollback for cmp = knownWork.Cmp(totalWork) in {-1, 0, 1} and see whether control
+	// returns.  Spelling-independent: `switch cmp {case 1: …; fallthrough; case 0: return}`, an
+	// `if` chain over a variable holding the comparison, or the call written out in the conditions.
+	eq := workCmpReturns(reorg)
+	l.def("equalWorkReturns", "Bool", lbool(eq), "between the work comparison and the rollback control returns for knownWork.Cmp(totalWork) = 1 and = 0 and goes on for -1 (equal work is not adopted)")
 
 	// writeCFHeadersMsg: store write before notifications
 	wf := funcDecl(f, "blockManager", "writeCFHeadersMsg")
@@ -267,6 +253,22 @@ func extractBlockMgr() {
 		r := strings.Index(body, "RollbackLastBlock(")
 		lowers = r >= 0 && a > r && m > a && u > m && strings.Contains(body, "b.filterHeaderTipHash = ")
 	}
+	// ... and removes the block header from the store BEFORE it announces the block as disconnected
+	removeFirst := false
+	if rb != nil {
+		rm, nt := token.Pos(-1), token.Pos(-1)
+		for _, c := range calls(rb.Body) {
+			if c.name == "b.cfg.BlockHeaders.RollbackLastBlock" && rm < 0 {
+				rm = c.pos
+			}
+			if c.name == "b.onBlockDisconnected" && nt < 0 {
+				nt = c.pos
+			}
+		}
+		removeFirst = rm >= 0 && nt > rm
+	}
+	l.def("rollbackRemovesBeforeNotify", "Bool", lbool(removeFirst), "rollBackToHeight calls BlockHeaders.RollbackLastBlock before onBlockDisconnected")
+
 	l.def("rollbackLowersFilterTip", "Bool", lbool(lowers), "rollBackToHeight lowers filterHeaderTip(+Hash) under newFilterHeadersMtx after rolling the filter store back")
 
 	// the notification channel is a rendezvous: `blockNtfnChan: make(chan blockntfns.BlockNtfn)` with
@@ -317,4 +319,204 @@ func extractBlockMgr() {
 	}
 	l.def("numMaxMemHeaders", "Nat", num, "window of the in-memory header list")
 	facts["blockmgr"] = map[string]any{"reorgFloorArg": floorArg, "mismatchFloorArg": mismatchArg, "reorgOrder": order}
+}
+
+// workCmpReturns interprets the statements of the reorg arm that follow the first mention of
+// knownWork.Cmp(totalWork) up to the call of b.rollBackToHeight, for each of the three outcomes of
+// the comparison.  It understands switch statements on the comparison (or on a variable assigned
+// from it) with constant cases and fallthrough, if / else-if chains whose conditions are boolean
+// combinations of comparisons of it with integer literals, return statements and anything that
+// does not affect control.  It answers true iff control returns for 1 and 0 and reaches the rollback for -1.
+func workCmpReturns(reorg *ast.BlockStmt) bool {
+	const cmpCall = "knownWork.Cmp(totalWork)"
+	var stmts []ast.Stmt
+	started := false
+	for _, st := range reorg.List {
+		if !started && strings.Contains(src(st), cmpCall) {
+			started = true
+		}
+		if started {
+			if strings.Contains(src(st), "b.rollBackToHeight(") {
+				break
+			}
+			stmts = append(stmts, st)
+		}
+	}
+	if len(stmts) == 0 {
+		fail("handleHeadersMsg reorg arm: knownWork.Cmp(totalWork) before b.rollBackToHeight")
+		return false
+	}
+	ok := true
+	returns := func(cmp int) bool {
+		vars := map[string]bool{} // names holding the comparison
+		var evalInt func(e ast.Expr) (int, bool)
+		evalInt = func(e ast.Expr) (int, bool) {
+			switch v := e.(type) {
+			case *ast.ParenExpr:
+				return evalInt(v.X)
+			case *ast.BasicLit:
+				n := 0
+				if _, err := fmt.Sscanf(v.Value, "%d", &n); err == nil {
+					return n, true
+				}
+			case *ast.UnaryExpr:
+				if v.Op == token.SUB {
+					if n, k := evalInt(v.X); k {
+						return -n, true
+					}
+				}
+			case *ast.Ident:
+				if vars[v.Name] {
+					return cmp, true
+				}
+			case *ast.CallExpr:
+				if src(v) == cmpCall {
+					return cmp, true
+				}
+			}
+			return 0, false
+		}
+		var evalBool func(e ast.Expr) (bool, bool)
+		evalBool = func(e ast.Expr) (bool, bool) {
+			switch v := e.(type) {
+			case *ast.ParenExpr:
+				return evalBool(v.X)
+			case *ast.UnaryExpr:
+				if v.Op == token.NOT {
+					b, k := evalBool(v.X)
+					return !b, k
+				}
+			case *ast.BinaryExpr:
+				switch v.Op {
+				case token.LAND, token.LOR:
+					a, ka := evalBool(v.X)
+					b, kb := evalBool(v.Y)
+					if v.Op == token.LAND {
+						return a && b, ka && kb
+					}
+					return a || b, ka && kb
+				}
+				a, ka := evalInt(v.X)
+				b, kb := evalInt(v.Y)
+				if !ka || !kb {
+					return false, false
+				}
+				switch v.Op {
+				case token.EQL:
+					return a == b, true
+				case token.NEQ:
+					return a != b, true
+				case token.LSS:
+					return a < b, true
+				case token.LEQ:
+					return a <= b, true
+				case token.GTR:
+					return a > b, true
+				case token.GEQ:
+					return a >= b, true
+				}
+			}
+			return false, false
+		}
+		var run func(list []ast.Stmt) bool // true = returned
+		run = func(list []ast.Stmt) bool {
+			for _, st := range list {
+				switch v := st.(type) {
+				case *ast.ReturnStmt:
+					return true
+				case *ast.AssignStmt:
+					if len(v.Lhs) == 1 && len(v.Rhs) == 1 && src(v.Rhs[0]) == cmpCall {
+						if id, isID := v.Lhs[0].(*ast.Ident); isID {
+							vars[id.Name] = true
+						}
+					}
+				case *ast.BlockStmt:
+					if run(v.List) {
+						return true
+					}
+				case *ast.IfStmt:
+					if v.Init != nil && run([]ast.Stmt{v.Init}) {
+						return true
+					}
+					c, known := evalBool(v.Cond)
+					if !known {
+						if strings.Contains(src(v.Cond), "Cmp") || mentions(v.Cond, vars) {
+							ok = false
+						}
+						continue // a condition that has nothing to do with the comparison (none expected here)
+					}
+					if c {
+						if run(v.Body.List) {
+							return true
+						}
+					} else if v.Else != nil {
+						if run([]ast.Stmt{v.Else}) {
+							return true
+						}
+					}
+				case *ast.SwitchStmt:
+					if v.Init != nil && run([]ast.Stmt{v.Init}) {
+						return true
+					}
+					tag, known := 0, false
+					if v.Tag != nil {
+						tag, known = evalInt(v.Tag)
+					}
+					if !known {
+						ok = false
+						continue
+					}
+					matched, dflt := -1, -1
+					for i, cl := range v.Body.List {
+						cc := cl.(*ast.CaseClause)
+						if cc.List == nil {
+							dflt = i
+						}
+						for _, e := range cc.List {
+							if n, k := evalInt(e); k && n == tag && matched < 0 {
+								matched = i
+							}
+						}
+					}
+					if matched < 0 {
+						matched = dflt
+					}
+					for i := matched; i >= 0 && i < len(v.Body.List); i++ {
+						cc := v.Body.List[i].(*ast.CaseClause)
+						ft := false
+						body := cc.Body
+						if n := len(body); n > 0 {
+							if br, isBr := body[n-1].(*ast.BranchStmt); isBr && br.Tok == token.FALLTHROUGH {
+								ft, body = true, body[:n-1]
+							}
+						}
+						if run(body) {
+							return true
+						}
+						if !ft {
+							break
+						}
+					}
+				}
+			}
+			return false
+		}
+		return run(stmts)
+	}
+	r1, r0, rm := returns(1), returns(0), returns(-1)
+	if !ok {
+		fail("handleHeadersMsg reorg arm: a condition on knownWork.Cmp(totalWork) the extractor cannot evaluate")
+	}
+	return ok && r1 && r0 && !rm
+}
+
+func mentions(e ast.Expr, vars map[string]bool) bool {
+	found := false
+	ast.Inspect(e, func(x ast.Node) bool {
+		if id, ok := x.(*ast.Ident); ok && vars[id.Name] {
+			found = true
+		}
+		return true
+	})
+	return found
 }
